@@ -927,7 +927,7 @@ class EventResult(BaseModel, Generic[T_EventResultType]):
                 else:
                     # cast the return value to the expected type using TypeAdapter
                     try:
-                        if issubclass(self.result_type, BaseModel):
+                        if isinstance(self.result_type, type) and issubclass(self.result_type, BaseModel):
                             # if expected result type is a pydantic model, validate it with pydantic
                             validated_result = self.result_type.model_validate(result)
                         else:
@@ -940,7 +940,7 @@ class EventResult(BaseModel, Generic[T_EventResultType]):
 
                     except Exception as cast_error:
                         self.error = ValueError(
-                            f'Event handler returned a value that did not match expected event_result_type: {self.result_type.__name__}({result}) -> {type(cast_error).__name__}: {cast_error}'
+                            f'Event handler returned a value that did not match expected event_result_type: {getattr(self.result_type, '__name__', self.result_type)}({result}) -> {type(cast_error).__name__}: {cast_error}'
                         )
                         self.result = None
                         self.status = 'error'
